@@ -42,9 +42,14 @@ class CBFSystem(System):
             m, k = _geom(n, p)
             for s in strats:
                 cfgs.append(dict(n=n, p=p, strat=s, depth=depth, seed=seed, m=m, k=k, nkeys=3 if tier == "quick" else 4,
-                                 cost=m * k * (2 if s != "table" else 1)))
+                                 cost=4000))
         if prop == "C06":
             cfgs = [c for c in cfgs if c["strat"] == "fnv"]  # the C reference implements the documented FNV-1a rule
+            # histories that drive cells to the limit and back: the C writer replays them with the saturation rules
+            for n, p in ((3, 0.1), (5, 0.05)):
+                m, k = _geom(n, p)
+                cfgs.append(dict(n=n, p=p, strat="fnv", depth=3 if tier == "quick" else 4, seed=seed, m=m, k=k, nkeys=3, sat=True,
+                                 cost=m * k * 4))
         if seed:
             r = seed % len(cfgs)
             cfgs = cfgs[r:] + cfgs[:r]
@@ -56,24 +61,33 @@ class CBFSystem(System):
             # a (cells 0..k-1), b (shares cell 0 / last cell), c (all positions coincide), bytes key
             keys = [keys[0], keys[1], keys[2], keys[4]][: cfg["nkeys"]]
         else:
-            keys = keys[: cfg["nkeys"]]
+            named = K.named_pool(cfg["strat"], cfg["m"], cfg["k"], cfg["seed"])
+            pref = [named.get(x) for x in ("base", "shared", "coinciding", "last")]
+            pref = [x for x in pref if x is not None]
+            keys = (pref + [x for x in keys if x not in pref])[: max(cfg["nkeys"], 4 if "coinciding" in named else 3)]
         return keys, hf, cov
 
     def initial(self, cfg):
         keys, hf, _ = self._alpha(cfg)
         f = CountingBloomFilter(cfg["n"], cfg["p"], hash_function=hf)
-        return State(f, {"true": [0] * len(keys), "total": 0})
+        model = {"true": [0] * len(keys), "total": 0}
+        if cfg.get("sat"):
+            model["ops"] = []
+        return State(f, model)
 
     def events(self, cfg, st):
         keys, _, _ = self._alpha(cfg)
         evs = []
+        amounts = (1, 2**32 - 2, 2**32 - 1) if cfg.get("sat") else (1, 2, 3)
         for i in range(len(keys)):
-            for n in (1, 2, 3):
+            for n in amounts:
                 evs.append(("add", i, n))
         for i in range(len(keys)):
-            for n in (1, 2, 3):
+            for n in amounts:
                 if n <= st.model["true"][i]:
                     evs.append(("remove", i, n))
+        if cfg.get("sat"):
+            return evs
         for i in range(len(keys)):
             if st.model["true"][i] == 0:
                 r = call(st.impl.check, keys[i])
@@ -92,12 +106,16 @@ class CBFSystem(System):
             if obs[0] == "ok":
                 m["true"][ev[1]] += ev[2]
                 m["total"] += ev[2]
+                if "ops" in m:
+                    m["ops"] = m["ops"] + [["add", ev[1], ev[2]]]
             return obs
         if kind == "remove":
             obs = call(f.remove, keys[ev[1]], ev[2])
             if obs[0] == "ok":
                 m["true"][ev[1]] -= ev[2]
                 m["total"] -= ev[2]
+                if "ops" in m:
+                    m["ops"] = m["ops"] + [["remove", ev[1], ev[2]]]
             return obs
         if kind == "remove_absent":
             return call(f.remove, keys[ev[1]], ev[2])
